@@ -128,7 +128,7 @@ theorem picker_error_outcome (e : GoErr) (ff : Bool) :
   · intro hn hf hff
     simp [pickErr, a54, hn, hf, hff, codeUnavailable]
 
-/-- F19: the config-selector site can hand io.EOF to the application — "every non-nil error returned
+/-- F24: the config-selector site can hand io.EOF to the application — "every non-nil error returned
     by Invoke/NewStream carries a status" is false of the unchanged code. -/
 theorem config_selector_eof_counterexample :
     ¬ ∀ e : GoErr, e ≠ .nil → carriesStatus (configSelectorErr e) = true := by
